@@ -5,6 +5,7 @@ package main
 
 import (
 	"fmt"
+	"go/token"
 	"go/types"
 	"regexp"
 	"strings"
@@ -14,116 +15,442 @@ import (
 
 // ---- C14: where the steps of the writer's protocol live ---------------------------------------------------------
 
-// c14Unit: the writer WF (the function of internal/file that renames the temporary file over the destination) and the
-// function H that creates, writes and closes the temporary file — WF itself, or a module function WF calls directly
-// and whose result is the name handed to Rename.
+// c14Unit: the writer as a call tree. WF is the entry (the function of internal/file that the cache calls and that,
+// itself or in a function it reaches, renames the temporary file over the destination); the steps of the protocol —
+// CreateTemp, Write, Close, Rename — may each live in WF or in any module function WF reaches by static calls
+// ("the family"). A step is identified by what it operates on (the handle os.CreateTemp returned, followed through
+// arguments, results, and the cell a closure captures), never by where it stands. Facts about a step that lives in a
+// callee are read in WF's frame: the callee's parameters are replaced by the arguments of its call (c14Unit.inWF),
+// which is exactly the substitution the gate composition applies when it carries a callee's must-pass facts over
+// the `err == nil` edge of the call — so "Rename is reached only after Write succeeded" is one label comparison
+// wherever the cut between the functions was made.
 type c14Unit struct {
-	WF, H  *ssa.Function
-	hc     *ssa.Call // the call of H in WF (nil when H == WF)
+	w      *World
+	WF     *ssa.Function
+	fns    []*ssa.Function // WF first
+	sites  map[*ssa.Function][]c14Site
 	ct, rn *ssa.Call
+	ctFn   *ssa.Function // the member that calls os.CreateTemp
+	rnFn   *ssa.Function // the member that calls os.Rename
 }
 
-func (u *c14Unit) fns() []*ssa.Function {
-	if u.H == u.WF {
-		return []*ssa.Function{u.WF}
+type c14Site struct {
+	caller *ssa.Function
+	call   ssa.CallInstruction
+}
+
+func (u *c14Unit) member(f *ssa.Function) bool {
+	if f == u.WF {
+		return true
 	}
-	return []*ssa.Function{u.WF, u.H}
+	_, ok := u.sites[f]
+	return ok
 }
 
-// c14FindUnit returns nil (with the reason) when WF and its direct module callees do not contain exactly one
-// os.CreateTemp and exactly one os.Rename, the latter in WF itself.
+// c14Family: fn and the module functions it reaches by static calls (closures it calls or defers included).
+func c14Family(w *World, fn *ssa.Function) ([]*ssa.Function, map[*ssa.Function][]c14Site) {
+	fns := []*ssa.Function{fn}
+	sites := map[*ssa.Function][]c14Site{}
+	seen := map[*ssa.Function]bool{fn: true}
+	for i := 0; i < len(fns) && len(fns) <= 24; i++ {
+		f := fns[i]
+		for _, ci := range allCalls(f) {
+			g := staticCallee(ci)
+			if g == nil || g.Blocks == nil || !w.IsProductFn(g) {
+				continue
+			}
+			sites[g] = append(sites[g], c14Site{f, ci})
+			if !seen[g] {
+				seen[g] = true
+				fns = append(fns, g)
+			}
+		}
+	}
+	return fns, sites
+}
+
+// c14FindUnit returns nil (with the reason) when the family of WF does not contain exactly one os.CreateTemp and
+// exactly one os.Rename, each in a member whose facts can be read in WF's frame.
 func c14FindUnit(w *World, WF *ssa.Function) (*c14Unit, string) {
 	if WF == nil {
 		return nil, "no function of internal/file renames a file"
 	}
-	u := &c14Unit{WF: WF}
-	rns := findCalls(WF, "os.Rename")
-	if len(rns) != 1 {
-		return nil, fmt.Sprintf("%d os.Rename calls in %s", len(rns), fnName(WF))
-	}
-	rn, isCall := rns[0].(*ssa.Call)
-	if !isCall {
-		return nil, "the rename is deferred"
-	}
-	u.rn = rn
-	var holders []*ssa.Function
-	var hcs []*ssa.Call
-	nct := len(findCalls(WF, "os.CreateTemp"))
-	if nct > 0 {
-		holders = append(holders, WF)
-	}
-	seen := map[*ssa.Function]bool{WF: true}
-	for _, ci := range allCalls(WF) {
-		g := staticCallee(ci)
-		if g == nil || g.Blocks == nil || !w.IsProductFn(g) {
-			continue
-		}
-		k := len(findCalls(g, "os.CreateTemp"))
-		if k == 0 && len(findCalls(g, "os.Rename")) > 0 && !seen[g] {
-			return nil, "a second rename in " + fnName(g)
-		}
-		if k == 0 {
-			continue
-		}
-		if call, ok := ci.(*ssa.Call); ok {
-			hcs = append(hcs, call)
-		} else {
-			return nil, "the temporary file is created in a deferred call"
-		}
-		if !seen[g] {
-			seen[g] = true
-			nct += k
-			holders = append(holders, g)
-			if len(findCalls(g, "os.Rename")) > 0 {
-				return nil, "a second rename in " + fnName(g)
+	u := &c14Unit{w: w, WF: WF}
+	u.fns, u.sites = c14Family(w, WF)
+	nct, nrn := 0, 0
+	for _, f := range u.fns {
+		for _, ci := range allCalls(f) {
+			switch calleeName(ci) {
+			case "os.Rename":
+				nrn++
+				if call, ok := ci.(*ssa.Call); ok {
+					u.rn, u.rnFn = call, f
+				} else {
+					return nil, "the rename is deferred"
+				}
+			case "os.CreateTemp":
+				nct++
+				if call, ok := ci.(*ssa.Call); ok {
+					u.ct, u.ctFn = call, f
+				} else {
+					return nil, "the temporary file is created in a deferred call"
+				}
 			}
 		}
 	}
-	if nct != 1 || len(holders) != 1 {
+	if nrn != 1 {
+		return nil, fmt.Sprintf("%d os.Rename calls in %s and the functions it calls", nrn, fnName(WF))
+	}
+	if nct != 1 {
 		return nil, fmt.Sprintf("%d os.CreateTemp calls in %s and the functions it calls", nct, fnName(WF))
 	}
-	u.H = holders[0]
-	if u.H != WF {
-		if len(hcs) != 1 {
-			return nil, fmt.Sprintf("%s is called %d times", fnName(u.H), len(hcs))
+	for _, f := range []*ssa.Function{u.ctFn, u.rnFn} {
+		if _, ok := u.chain(f); !ok {
+			return nil, fnName(f) + " is not called exactly once on the way from " + fnName(WF)
 		}
-		u.hc = hcs[0]
 	}
-	ct, isCall := findCalls(u.H, "os.CreateTemp")[0].(*ssa.Call)
-	if !isCall {
-		return nil, "the temporary file is created in a deferred call"
-	}
-	u.ct = ct
 	return u, ""
 }
 
-func c14ParamIndex(fn *ssa.Function, v ssa.Value) int {
-	d := desc(v)
-	for i, p := range fn.Params {
-		if d == "param:"+p.Name() {
-			return i
+// c14CellValue: the one value ever assigned to the variable (nil when it is assigned more than once, or written by a
+// closure): a variable that exists only because a closure reads it still holds what it was initialised with.
+func c14CellValue(al *ssa.Alloc) ssa.Value {
+	var v ssa.Value
+	n := 0
+	for _, r := range *al.Referrers() {
+		if st, ok := r.(*ssa.Store); ok && st.Addr == ssa.Value(al) {
+			n++
+			v = st.Val
 		}
 	}
-	return -1
+	if n != 1 || allocWrittenByClosure(al) {
+		return nil
+	}
+	return v
 }
 
-// toWF: the parameter of WF that a value of H's frame is (H's own parameter, fed at the call of H by a parameter of WF).
-func (u *c14Unit) toWF(v ssa.Value) *ssa.Parameter {
-	i := c14ParamIndex(u.H, v)
-	if i < 0 {
+// chain: the calls that lead from WF to f (outermost first) when f is WF or is called exactly once inside the
+// family, by an ordinary call, from a member that itself has such a chain. Only then do the facts of f's body read
+// unambiguously in WF's frame.
+func (u *c14Unit) chain(f *ssa.Function) ([]*ssa.Call, bool) {
+	var rev []*ssa.Call
+	for d := 0; f != u.WF; d++ {
+		ss := u.sites[f]
+		if len(ss) != 1 || d > 6 {
+			return nil, false
+		}
+		call, ok := ss[0].call.(*ssa.Call)
+		if !ok || len(call.Call.Args) != len(f.Params) {
+			return nil, false
+		}
+		rev = append(rev, call)
+		f = ss[0].caller
+	}
+	for i, j := 0, len(rev)-1; i < j; i, j = i+1, j-1 {
+		rev[i], rev[j] = rev[j], rev[i]
+	}
+	return rev, true
+}
+
+// inWF: a label (or printed value) of f's frame read in WF's frame.
+func (u *c14Unit) inWF(f *ssa.Function, label string) string {
+	ch, ok := u.chain(f)
+	if !ok {
+		return "?" + label
+	}
+	for i := len(ch) - 1; i >= 0; i-- {
+		label = c15FrameAt(ch[i]).in(label)
+	}
+	return label
+}
+
+// guards: the facts every path from the entry of WF to the instruction (of member f) has passed, in WF's frame: the
+// guards of the instruction inside f, and the guards of every call on the chain that leads to f.
+func (u *c14Unit) guards(f *ssa.Function, in ssa.Instruction) map[string]string {
+	out := map[string]string{}
+	ch, ok := u.chain(f)
+	if !ok {
+		return out
+	}
+	for {
+		for l, site := range u.w.Info(f).GuardsOf(in) {
+			out[u.inWF(f, l)] = site
+		}
+		if len(ch) == 0 {
+			return out
+		}
+		in = ch[len(ch)-1]
+		f = in.Parent()
+		ch = ch[:len(ch)-1]
+	}
+}
+
+// wfParam: the parameter of WF that the value v of member f is (through the chain of calls).
+func (u *c14Unit) wfParam(f *ssa.Function, v ssa.Value) *ssa.Parameter {
+	d := u.inWF(f, desc(v))
+	for _, p := range u.WF.Params {
+		if d == "param:"+p.Name() {
+			return p
+		}
+	}
+	return nil
+}
+
+// isHandle: the value v of member f is the temporary file os.CreateTemp returned —
+//   - the result itself (or the variable it is kept in, assigned once, when a closure captures it);
+//   - a parameter of f, when every call of f inside the family passes the handle at that position;
+//   - the captured variable, read inside a closure;
+//   - a result of a member every value-delivering exit of which returns the handle.
+func (u *c14Unit) isHandle(f *ssa.Function, v ssa.Value, depth int) bool {
+	if depth > 4 {
+		return false
+	}
+	switch x := v.(type) {
+	case *ssa.Extract:
+		if x.Tuple == ssa.Value(u.ct) {
+			return x.Index == 0
+		}
+		if call, ok := x.Tuple.(*ssa.Call); ok {
+			return u.resultIs(call, x.Index, depth, u.isHandle)
+		}
+	case *ssa.Call:
+		return u.resultIs(x, 0, depth, u.isHandle)
+	case *ssa.UnOp:
+		if al, ok := x.X.(*ssa.Alloc); ok {
+			if sv := c14CellValue(al); sv != nil {
+				return u.isHandle(f, sv, depth+1)
+			}
+		}
+		if fv, ok := x.X.(*ssa.FreeVar); ok {
+			if al := c14Bound(f, fv); al != nil && f.Parent() != nil {
+				if sv := c14CellValue(al); sv != nil {
+					return u.isHandle(f.Parent(), sv, depth+1)
+				}
+			}
+		}
+	case *ssa.Parameter:
+		return u.paramIs(f, x, depth, u.isHandle)
+	}
+	return false
+}
+
+// isName: the value is handle.Name() — taken here, kept in a variable assigned once, handed in as an argument by
+// every caller, or handed back by a member on every value-delivering exit.
+func (u *c14Unit) isName(f *ssa.Function, v ssa.Value, depth int) bool {
+	if depth > 4 {
+		return false
+	}
+	v = loadOrigin(v)
+	switch x := v.(type) {
+	case *ssa.Call:
+		if calleeName(x) == "(*os.File).Name" {
+			return u.isHandle(f, x.Call.Args[0], depth)
+		}
+		return u.resultIs(x, 0, depth, u.isName)
+	case *ssa.Extract:
+		if call, ok := x.Tuple.(*ssa.Call); ok {
+			return u.resultIs(call, x.Index, depth, u.isName)
+		}
+	case *ssa.Parameter:
+		return u.paramIs(f, x, depth, u.isName)
+	}
+	return false
+}
+
+func (u *c14Unit) paramIs(f *ssa.Function, p *ssa.Parameter, depth int, is func(*ssa.Function, ssa.Value, int) bool) bool {
+	idx := -1
+	for i, q := range f.Params {
+		if q == p {
+			idx = i
+		}
+	}
+	ss := u.sites[f]
+	if idx < 0 || len(ss) == 0 || f == u.WF {
+		return false
+	}
+	for _, s := range ss {
+		args := s.call.Common().Args
+		if idx >= len(args) || !is(s.caller, args[idx], depth+1) {
+			return false
+		}
+	}
+	return true
+}
+
+// resultIs: result k of the call is, on every exit of the (member) callee that can report success, a value with the
+// property `is` — and is not a result variable a deferred function rewrites afterwards.
+func (u *c14Unit) resultIs(call *ssa.Call, k int, depth int, is func(*ssa.Function, ssa.Value, int) bool) bool {
+	g := staticCallee(call)
+	if g == nil || !u.member(g) || g == u.WF {
+		return false
+	}
+	var rets []*ssa.Return
+	res := g.Signature.Results()
+	if res.Len() > 0 && isErrorType(res.At(res.Len()-1).Type()) {
+		s := u.w.Summarize(g, Mode{Kind: mErr})
+		if s == nil || !s.Complete {
+			return false
+		}
+		for _, e := range s.Exits {
+			rets = append(rets, e.Ret)
+		}
+	} else {
+		for _, b := range g.Blocks {
+			if r, ok := blockTerm(b).(*ssa.Return); ok {
+				rets = append(rets, r)
+			}
+		}
+	}
+	if len(rets) == 0 {
+		return false
+	}
+	for _, r := range rets {
+		if k >= len(r.Results) {
+			return false
+		}
+		v := r.Results[k]
+		if al, _ := unwrapLoadAlloc(v); al != nil && allocWrittenByClosure(al) {
+			return false
+		}
+		if !is(g, spilledRet(v), depth+1) {
+			return false
+		}
+	}
+	return true
+}
+
+// c14Bound: the variable of the enclosing function that the free variable of closure f is bound to, wherever the
+// closure is made (nil if it is not one and the same local variable).
+func c14Bound(f *ssa.Function, fv *ssa.FreeVar) *ssa.Alloc {
+	idx := -1
+	for i, q := range f.FreeVars {
+		if q == fv {
+			idx = i
+		}
+	}
+	par := f.Parent()
+	if idx < 0 || par == nil {
 		return nil
 	}
-	if u.H == u.WF {
-		return u.WF.Params[i]
+	var cell *ssa.Alloc
+	for _, b := range par.Blocks {
+		for _, in := range b.Instrs {
+			if mc, ok := in.(*ssa.MakeClosure); ok && mc.Fn == ssa.Value(f) {
+				if idx >= len(mc.Bindings) {
+					return nil
+				}
+				al, ok := mc.Bindings[idx].(*ssa.Alloc)
+				if !ok || (cell != nil && al != cell) {
+					return nil
+				}
+				cell = al
+			}
+		}
 	}
-	if i >= len(u.hc.Call.Args) {
-		return nil
+	return cell
+}
+
+// handleCalls: the calls of the method (e.g. "(*os.File).Write") on the handle, in all members and the closures made
+// in them.
+func (u *c14Unit) handleCalls(method string) (calls []*ssa.Call, fns []*ssa.Function, deferred int) {
+	seen := map[*ssa.Function]bool{}
+	var all []*ssa.Function
+	for _, f := range u.fns {
+		for _, g := range append([]*ssa.Function{f}, closuresOf(f)...) {
+			if !seen[g] {
+				seen[g] = true
+				all = append(all, g)
+			}
+		}
 	}
-	j := c14ParamIndex(u.WF, u.hc.Call.Args[i])
-	if j < 0 {
-		return nil
+	for _, f := range all {
+		for _, ci := range allCalls(f) {
+			if calleeName(ci) != method || len(ci.Common().Args) == 0 || !u.isHandle(f, ci.Common().Args[0], 0) {
+				continue
+			}
+			if call, ok := ci.(*ssa.Call); ok {
+				calls = append(calls, call)
+				fns = append(fns, f)
+			} else {
+				deferred++
+			}
+		}
 	}
-	return u.WF.Params[j]
+	return
+}
+
+// otherHandleUses: calls that are handed the temporary file other than the steps of the protocol, harmless methods
+// (Name, Sync, Chmod, Stat, Fd) and members of the family (followed by isHandle): WriteString, WriteAt, Truncate,
+// io.Copy(handle, …), fmt.Fprint(handle, …) would change the content behind the back of the one Write the protocol
+// counts.
+func (u *c14Unit) otherHandleUses() []string {
+	var out []string
+	seen := map[*ssa.Function]bool{}
+	for _, f0 := range u.fns {
+		for _, f := range append([]*ssa.Function{f0}, closuresOf(f0)...) {
+			if seen[f] {
+				continue
+			}
+			seen[f] = true
+			for _, ci := range allCalls(f) {
+				switch calleeName(ci) {
+				case "(*os.File).Write", "(*os.File).Close", "(*os.File).Name", "(*os.File).Sync", "(*os.File).Chmod", "(*os.File).Stat", "(*os.File).Fd":
+					continue
+				}
+				if g := staticCallee(ci); g != nil && u.member(g) {
+					continue
+				}
+				for _, a := range callArgs(ci) {
+					if u.isHandle(f, unwrap(a), 0) {
+						out = append(out, calleeName(ci))
+					}
+				}
+			}
+		}
+	}
+	return out
+}
+
+// passThrough: every exit of g returns, as result k, its own parameter number i unchanged (`func(err error) error {
+// cleanup(); return err }`): the result of a call of g is the argument it was given. -1 if g is not of that kind.
+func c14PassThrough(g *ssa.Function, k int) int {
+	if g == nil || g.Blocks == nil {
+		return -1
+	}
+	idx, n := -1, 0
+	for _, b := range g.Blocks {
+		r, ok := blockTerm(b).(*ssa.Return)
+		if !ok {
+			continue
+		}
+		if k >= len(r.Results) {
+			return -1
+		}
+		v := r.Results[k]
+		if al, _ := unwrapLoadAlloc(v); al != nil && allocWrittenByClosure(al) {
+			return -1
+		}
+		p, ok := spilledRet(v).(*ssa.Parameter)
+		if !ok {
+			return -1
+		}
+		i := -1
+		for j, q := range g.Params {
+			if q == p {
+				i = j
+			}
+		}
+		if i < 0 || (n > 0 && i != idx) {
+			return -1
+		}
+		// the parameter is never reassigned: parameters are SSA values, a reassigned one would be a phi or a cell
+		idx = i
+		n++
+	}
+	if n == 0 {
+		return -1
+	}
+	return idx
 }
 
 // c14ErrorOnlyViaRename: an alternative proof of "the writer reports success only after the rename" for writers that
@@ -133,7 +460,8 @@ func (u *c14Unit) toWF(v ssa.Value) *ssa.Parameter {
 // at a return as the error result (followed through phis) is
 //   - provably non-nil where it is produced (a failure is reported), or
 //   - the result of the rename itself (nil exactly when the rename succeeded), or
-//   - delivered from a block that cannot be reached once the edges into the rename's block are removed.
+//   - delivered from a block that cannot be reached once the edges into the rename's block are removed, or
+//   - one of the above handed through a function that returns its argument unchanged (c14PassThrough).
 //
 // So a nil result implies the rename was executed first — the same fact the path rule establishes.
 func c14ErrorOnlyViaRename(fi *FnInfo, rn *ssa.Call) (bool, string) {
@@ -177,6 +505,26 @@ func c14ErrorOnlyViaRename(fi *FnInfo, rn *ssa.Call) (bool, string) {
 					}
 				}
 				return true, ""
+			}
+			// a function that hands its argument back unchanged on every exit (a clean-up wrapper:
+			// `discard := func(err error) error { f.Close(); os.Remove(name); return err }`): the value is the argument
+			{
+				var call *ssa.Call
+				k := 0
+				switch x := v.(type) {
+				case *ssa.Call:
+					call = x
+				case *ssa.Extract:
+					call, _ = x.Tuple.(*ssa.Call)
+					k = x.Index
+				}
+				if call != nil && call != rn {
+					if g := staticCallee(call); g != nil && fi.W.IsProductFn(g) {
+						if i := c14PassThrough(g, k); i >= 0 && i < len(call.Call.Args) {
+							return walk(call.Call.Args[i], at)
+						}
+					}
+				}
 			}
 			if _, isLoad := v.(*ssa.UnOp); isLoad {
 				if sv := spilledRet(v); sv != v {
@@ -236,18 +584,24 @@ func c14FromRead(unit []*ssa.Function, f *ssa.Function, v ssa.Value, rf *ssa.Cal
 // ---- C15: frames, exact labels, gates decided through helpers ---------------------------------------------------
 
 // c15Frame: how the parameters of a callee read in the caller's frame (the substitution the gate composition applies
-// to the callee's labels). The identity when callee == caller.
+// to the callee's labels). The identity when callee == caller. When several calls lie between the two functions the
+// frames compose (outer = the frame of the caller of `call`, seen from the function the facts are read in).
 type c15Frame struct {
 	names, descs []string
 	ident        bool
-	call         *ssa.Call
+	call         *ssa.Call // the call of the callee itself (the innermost of the chain)
+	outer        *c15Frame
 }
 
 func (fr *c15Frame) in(label string) string {
 	if fr.ident {
 		return label
 	}
-	return substParams(label, fr.names, fr.descs)
+	label = substParams(label, fr.names, fr.descs)
+	if fr.outer != nil {
+		return fr.outer.in(label)
+	}
+	return label
 }
 
 func c15FrameAt(call *ssa.Call) *c15Frame {
@@ -280,6 +634,357 @@ func c15FrameOf(caller, callee *ssa.Function) *c15Frame {
 		return nil
 	}
 	return c15FrameAt(calls[0])
+}
+
+// c15FramePath: the frame of `to` seen from `from` when `to` is reached from `from` through functions of the unit,
+// each of which is called exactly once in the whole unit (by an ordinary call): the chain of calls is then unique
+// and a fact of `to`'s body reads in `from`'s frame by substituting parameters by arguments call after call —
+// what the gate composition does when it carries must-pass facts over `err == nil` edges. nil if there is no such
+// unique chain.
+func c15FramePath(unit []*ssa.Function, from, to *ssa.Function) *c15Frame {
+	return c15FramePathD(unit, from, to, 0)
+}
+
+func c15FramePathD(unit []*ssa.Function, from, to *ssa.Function, depth int) *c15Frame {
+	if from == to {
+		return &c15Frame{ident: true}
+	}
+	if depth > 5 {
+		return nil
+	}
+	var site *ssa.Call
+	n := 0
+	for _, f := range unit {
+		for _, ci := range allCalls(f) {
+			if staticCallee(ci) != to {
+				continue
+			}
+			n++
+			site, _ = ci.(*ssa.Call)
+		}
+	}
+	if n != 1 || site == nil || len(site.Call.Args) != len(to.Params) {
+		return nil
+	}
+	fr := c15FrameAt(site)
+	if site.Parent() == from {
+		return fr
+	}
+	outer := c15FramePathD(unit, from, site.Parent(), depth+1)
+	if outer == nil {
+		return nil
+	}
+	if !outer.ident {
+		fr.outer = outer
+	}
+	return fr
+}
+
+// ---- C15: a step's error checked through an accumulated error variable ------------------------------------------
+
+// c15Need: every success-capable exit must lie behind the fact Label (`EQ(<error of a step>,nil)`); X is the SSA value of
+// that error when the step stands in the function itself (nil when it stands in a callee and Label is the callee's
+// fact read in this frame).
+type c15Need struct {
+	Name, What, Label string
+	X                 ssa.Value
+}
+
+// c15RequireOnExits is requireOnExits with one more way to carry a fact: through an error variable that collects the
+// outcome of several steps and is tested once (`b, err := step1(); if err == nil { err = step2(b) }; if err != nil
+// { return wrap(err) }; return nil`). The exit then lies behind `EQ(phi(e1|e2),nil)`, and that implies `EQ(e1,nil)`
+// when (c15PhiNilImplies) on every way into the phi the value that arrives is e1 itself, or the way was only open
+// after `EQ(e1,nil)`, or the value that arrives is known non-nil there (so that way cannot continue into the nil branch).
+func (c *Ctx) c15RequireOnExits(prefix string, fn *ssa.Function, exits []*ExitSum, needs []c15Need) {
+	w := c.W
+	fi := w.Info(fn)
+	for _, n := range needs {
+		key := prefix + "/" + n.Name
+		rule := "must-check: every success-capable exit of " + fnName(fn) + " is reachable only through the passing edge of: " + n.What
+		if len(exits) == 0 {
+			c.Unk(key, rule, w.FnPos(fn), "the function has no success-capable exit under this mode: rule does not recognise its shape")
+			continue
+		}
+		okAll := true
+		site := w.FnPos(fn)
+		for i, ex := range exits {
+			c.Evals++
+			if s, ok := ex.Checked[n.Label]; ok {
+				if i == 0 {
+					site = s
+				}
+				continue
+			}
+			if c15ExitBehindPhi(fi, ex, n) {
+				continue
+			}
+			okAll = false
+			c.Bad(key, rule, w.InstrPos(ex.Ret),
+				fmt.Sprintf("success-capable exit at %s (block b%d) is reachable without that check; facts that do hold on every path to it: %s",
+					w.InstrPos(ex.Ret), ex.Ret.Block().Index, summarizeLabels(ex.Checked, 12)))
+			break
+		}
+		if okAll {
+			c.OK(key, rule, site)
+		}
+	}
+}
+
+// c15ExitBehindPhi: the exit lies behind the nil edge of a test `phi == nil` / `phi != nil` (every path to the exit's
+// block takes that edge) and the phi being nil implies the wanted fact.
+func c15ExitBehindPhi(fi *FnInfo, ex *ExitSum, n c15Need) bool {
+	for _, b := range fi.Fn.Blocks {
+		iff, ok := blockTerm(b).(*ssa.If)
+		if !ok || len(b.Succs) != 2 {
+			continue
+		}
+		bo, ok := iff.Cond.(*ssa.BinOp)
+		if !ok || (bo.Op != token.EQL && bo.Op != token.NEQ) {
+			continue
+		}
+		var o ssa.Value
+		if isNilConst(bo.Y) {
+			o = bo.X
+		} else if isNilConst(bo.X) {
+			o = bo.Y
+		}
+		ph, ok := o.(*ssa.Phi)
+		if !ok {
+			continue
+		}
+		j := 0 // the edge on which the phi is nil
+		if bo.Op == token.NEQ {
+			j = 1
+		}
+		if !labelHas(ex.Checked, condLabel(iff.Cond, j == 0)) {
+			continue
+		}
+		if fi.reachHit(entryState(), map[edgeKey]bool{{b.Index, j}: true}, map[int]bool{ex.Ret.Block().Index: true}) {
+			continue // another test with the same printed form: this edge is not on every path to the exit
+		}
+		if c15PhiNilImplies(fi, ph, n, map[*ssa.Phi]bool{}) {
+			return true
+		}
+	}
+	return false
+}
+
+func c15PhiNilImplies(fi *FnInfo, ph *ssa.Phi, n c15Need, seen map[*ssa.Phi]bool) bool {
+	if seen[ph] {
+		return false
+	}
+	seen[ph] = true
+	pb := ph.Block()
+	// the phi's block must not lie on a cycle: "the way into the phi" is then the last edge taken before the test
+	if fi.reachHit([]state{{pb.Index, 0, -1}}, nil, map[int]bool{pb.Index: true}) {
+		return false
+	}
+	for i, e := range ph.Edges {
+		if n.X != nil && e == n.X {
+			continue // the value that arrives is the step's own error: nil here means the step succeeded
+		}
+		pred := pb.Preds[i]
+		// the facts every path from the entry that enters the phi's block by this edge has passed
+		cut := map[edgeKey]bool{}
+		for _, q := range pb.Preds {
+			for j, sx := range q.Succs {
+				if sx == pb && q != pred {
+					cut[edgeKey{q.Index, j}] = true
+				}
+			}
+		}
+		labels, ok := fi.mustPassBetweenCut([]int{0}, map[int]bool{pb.Index: true}, cut)
+		if !ok {
+			continue // this way into the phi cannot be taken at all
+		}
+		if labelHas(labels, n.Label) {
+			continue
+		}
+		if fi.nonNil(e, pred) || labelHas(labels, "NE("+desc(e)+",nil)") {
+			continue // a non-nil value arrives: the nil branch of the test is not taken on this way
+		}
+		if q, isPhi := e.(*ssa.Phi); isPhi && c15PhiNilImplies(fi, q, n, seen) {
+			continue
+		}
+		return false
+	}
+	return true
+}
+
+// ---- C15: values followed through the functions of the unit --------------------------------------------------------
+
+// c15MarshalOf: the value is result 0 of a json.Marshal call — directly, or as the result of a function of the unit
+// every success-capable exit of which hands back result 0 of one and the same json.Marshal call (`return
+// json.Marshal(entry)`, or `b, err := json.Marshal(entry); if err != nil {…}; return b, nil`).
+func c15MarshalOf(w *World, unit []*ssa.Function, v ssa.Value, depth int) *ssa.Call {
+	ex, ok := loadOrigin(v).(*ssa.Extract)
+	if !ok || depth > 3 {
+		return nil
+	}
+	call, ok := ex.Tuple.(*ssa.Call)
+	if !ok {
+		return nil
+	}
+	if calleeName(call) == "encoding/json.Marshal" {
+		if ex.Index == 0 {
+			return call
+		}
+		return nil
+	}
+	g := staticCallee(call)
+	inUnit := false
+	for _, f := range unit {
+		if f == g {
+			inUnit = true
+		}
+	}
+	if g == nil || !inUnit {
+		return nil
+	}
+	s := w.Summarize(g, Mode{Kind: mErr})
+	if s == nil || !s.Complete || len(s.Exits) == 0 {
+		return nil
+	}
+	var m *ssa.Call
+	for _, e := range s.Exits {
+		if ex.Index >= len(e.Ret.Results) {
+			return nil
+		}
+		rv := e.Ret.Results[ex.Index]
+		if c15RewrittenResult(rv) {
+			return nil
+		}
+		mm := c15MarshalOf(w, unit, spilledRet(rv), depth+1)
+		if mm == nil || (m != nil && mm != m) {
+			return nil
+		}
+		m = mm
+	}
+	return m
+}
+
+// c15ExpandParams: the values v (of function fn) can be, other than nil — following a parameter of fn to the argument
+// of fn's only call in the unit (and that argument's phi arms), so that a value handed to a constructor is judged
+// where it was produced.
+type c15Leaf struct {
+	v  ssa.Value
+	fn *ssa.Function
+}
+
+func c15ExpandParams(unit []*ssa.Function, fn *ssa.Function, v ssa.Value, depth int) []c15Leaf {
+	if ph, ok := v.(*ssa.Phi); ok && depth > 0 {
+		var out []c15Leaf
+		seen := map[ssa.Value]bool{}
+		var walk func(x ssa.Value)
+		walk = func(x ssa.Value) {
+			if seen[x] {
+				return
+			}
+			seen[x] = true
+			if q, ok := x.(*ssa.Phi); ok {
+				for _, e := range q.Edges {
+					walk(e)
+				}
+				return
+			}
+			if !isNilConst(x) {
+				out = append(out, c15ExpandParams(unit, fn, x, depth)...)
+			}
+		}
+		walk(ph)
+		return out
+	}
+	p, ok := v.(*ssa.Parameter)
+	if !ok || depth > 3 {
+		return []c15Leaf{{v, fn}}
+	}
+	idx := -1
+	for i, q := range fn.Params {
+		if q == p {
+			idx = i
+		}
+	}
+	var site *ssa.Call
+	n := 0
+	for _, f := range unit {
+		for _, ci := range allCalls(f) {
+			if staticCallee(ci) == fn {
+				n++
+				site, _ = ci.(*ssa.Call)
+			}
+		}
+	}
+	if idx < 0 || n != 1 || site == nil || idx >= len(site.Call.Args) {
+		return []c15Leaf{{v, fn}}
+	}
+	return c15ExpandParams(unit, site.Parent(), site.Call.Args[idx], depth+1)
+}
+
+// c15RewrittenResult: the returned value is read from a result variable that a deferred function may rewrite.
+func c15RewrittenResult(rv ssa.Value) bool {
+	if un, ok := rv.(*ssa.UnOp); ok {
+		if al, ok := un.X.(*ssa.Alloc); ok && allocWrittenByClosure(al) {
+			return true
+		}
+	}
+	return false
+}
+
+// c15ResolveObjs: the objects (allocations) the value can be — itself, the arms of a phi (a nil arm is not an
+// object: unresolved), or what a function of the unit, called exactly once in the unit, hands back as result k on its
+// success-capable exits.
+func c15ResolveObjs(w *World, unit []*ssa.Function, v ssa.Value, depth int, out map[*ssa.Alloc]bool) bool {
+	if depth > 4 {
+		return false
+	}
+	switch x := v.(type) {
+	case *ssa.Alloc:
+		out[x] = true
+		return true
+	case *ssa.Phi:
+		for _, e := range x.Edges {
+			if e == v {
+				continue
+			}
+			if !c15ResolveObjs(w, unit, e, depth+1, out) {
+				return false
+			}
+		}
+		return len(x.Edges) > 0
+	}
+	k := 0
+	var call *ssa.Call
+	switch x := v.(type) {
+	case *ssa.Extract:
+		call, _ = x.Tuple.(*ssa.Call)
+		k = x.Index
+	case *ssa.Call:
+		call = x
+	}
+	if call == nil {
+		return false
+	}
+	g := staticCallee(call)
+	if g == nil || g.Blocks == nil || !w.IsProductFn(g) || c15FramePath(unit, call.Parent(), g) == nil {
+		return false
+	}
+	s := w.Summarize(g, Mode{Kind: mErr})
+	if s == nil || !s.Complete || len(s.Exits) == 0 {
+		return false
+	}
+	for _, ex := range s.Exits {
+		if k >= len(ex.Ret.Results) {
+			return false
+		}
+		rv := ex.Ret.Results[k]
+		if c15RewrittenResult(rv) {
+			return false
+		}
+		if !c15ResolveObjs(w, unit, spilledRet(rv), depth+1, out) {
+			return false
+		}
+	}
+	return true
 }
 
 // exactNeed: some fact of the exit is exactly one of the labels (a disjunction that merely contains the label is a
@@ -443,6 +1148,11 @@ func c15LoadSeesStores(fi *FnInfo, ld ssa.Instruction, stores []*ssa.Store) bool
 // that type, or an object reached through a parameter, a call result or a load: a helper that is handed the object can
 // rewrite it behind the back of the rule that looked at the local's own stores).
 func c15ForeignStores(w *World, unit []*ssa.Function, T types.Type, local *ssa.Alloc) []string {
+	return c15ForeignStoresSet(w, unit, T, map[*ssa.Alloc]bool{local: local != nil})
+}
+
+// c15ForeignStoresSet: the same with several locals whose own stores the rule has examined.
+func c15ForeignStoresSet(w *World, unit []*ssa.Function, T types.Type, locals map[*ssa.Alloc]bool) []string {
 	var out []string
 	for _, f := range unit {
 		for _, b := range f.Blocks {
@@ -452,7 +1162,10 @@ func c15ForeignStores(w *World, unit []*ssa.Function, T types.Type, local *ssa.A
 					continue
 				}
 				fa, ok := st.Addr.(*ssa.FieldAddr)
-				if !ok || !types.Identical(fa.X.Type(), T) || fa.X == ssa.Value(local) {
+				if !ok || !types.Identical(fa.X.Type(), T) {
+					continue
+				}
+				if al, isAl := fa.X.(*ssa.Alloc); isAl && locals[al] {
 					continue
 				}
 				out = append(out, fieldName(fa.X.Type(), fa.Field)+" of "+desc(fa.X)+" at "+w.InstrPos(st))
@@ -495,14 +1208,290 @@ func (u *c14Unit) roles() (dir, path, content int) {
 		}
 		return -1
 	}
-	d := idx(u.toWF(u.ct.Call.Args[0]))
-	p := c14ParamIndex(u.WF, u.rn.Call.Args[1])
+	d := idx(u.wfParam(u.ctFn, u.ct.Call.Args[0]))
+	p := idx(u.wfParam(u.rnFn, u.rn.Call.Args[1]))
 	k := -1
-	if ws := findCalls(u.H, "(*os.File).Write"); len(ws) == 1 {
-		k = idx(u.toWF(ws[0].Common().Args[1]))
+	if ws, fs, _ := u.handleCalls("(*os.File).Write"); len(ws) == 1 {
+		k = idx(u.wfParam(fs[0], ws[0].Call.Args[1]))
 	}
 	if d >= 0 && p >= 0 && k >= 0 && d != p && p != k && d != k {
 		return d, p, k
 	}
 	return
+}
+
+// ---- C15: the expiry checks written as a loop over a table of the bundle's lists ---------------------------------
+
+// c15TableFacts: what a loop over a local table establishes for the values the table holds. For a spelling v of a
+// list (how the value stored in the table prints): nilOrFresh[v] — at every success-capable exit of the function
+// v is nil or time.Now() was not after v.NextUpdate; nilOrNotZero[v] — v is nil or v.NextUpdate is not zero.
+type c15TableFacts struct {
+	nilOrFresh, nilOrNotZero map[string]bool
+	gates                    int
+}
+
+// c15TableLoops recognises
+//
+//	for _, e := range []struct{…; l *x509.RevocationList}{{…, L0}, {…, L1}} { if e.l == nil { continue }; if err := check(e.l.NextUpdate); err != nil { return …, err } }
+//
+// and turns the facts of one iteration into facts about L0, L1, … at the exits of the function. The argument:
+//   - the table is a local array literal, every element of which is stored once, at a constant index, in a block that
+//     dominates the loop, and which is used for nothing but these stores and the slice the loop ranges over (so the
+//     loop reads what was stored);
+//   - the loop is the index loop go/ssa builds for `range` over that slice (index phi(-1, i+1), test i+1 < len): the
+//     edge from its header to its exit is taken only after iterations 0 … N-1 each came back to the header;
+//   - every success-capable exit of the function lies behind that header-to-exit edge (cutting it leaves no success
+//     witness): a `break`, or a path around the loop, would show up here;
+//   - within one iteration every way from the body back to the header passes an edge on which the wanted fact holds for
+//     the element (the element is nil, or the check on its NextUpdate succeeded — read through the checking function's
+//     own must-pass facts, exactly as on a straight-line call).
+//
+// Hence at every success-capable exit the fact holds for each of the N elements, i.e. for the values stored.
+// sees(load): a table value that is loaded from an object the caller tracks is the object's final value.
+func c15TableLoops(w *World, fn *ssa.Function, m Mode, sees func(ld *ssa.UnOp) bool) *c15TableFacts {
+	tf := &c15TableFacts{nilOrFresh: map[string]bool{}, nilOrNotZero: map[string]bool{}}
+	fi := w.Info(fn)
+	for _, L := range sliceLoops(fn) {
+		sl, ok := L.X.(*ssa.Slice)
+		if !ok || sl.Low != nil || sl.High != nil || sl.Max != nil {
+			continue
+		}
+		T, ok := sl.X.(*ssa.Alloc)
+		if !ok {
+			continue
+		}
+		arr, ok := T.Type().Underlying().(*types.Pointer).Elem().Underlying().(*types.Array)
+		if !ok || arr.Len() < 1 || arr.Len() > 8 {
+			continue
+		}
+		est, ok := arr.Elem().Underlying().(*types.Struct)
+		if !ok {
+			continue
+		}
+		inLoop := loopBlocks(L.Header)
+		// the index: phi(-1 from outside, i+1 from the back edges), tested as i+1 < len(slice)
+		iff := blockTerm(L.Header).(*ssa.If)
+		cmp := iff.Cond.(*ssa.BinOp)
+		inc, ok := cmp.X.(*ssa.BinOp)
+		if !ok || inc.Op != token.ADD || desc(inc.Y) != "const:1" || L.Header.Succs[0] != L.Body || inLoop[L.Exit.Index] {
+			continue
+		}
+		ph, ok := inc.X.(*ssa.Phi)
+		if !ok || ph.Block() != L.Header {
+			continue
+		}
+		okIdx := true
+		for i, e := range ph.Edges {
+			fromLoop := inLoop[L.Header.Preds[i].Index]
+			if fromLoop && e != ssa.Value(inc) || !fromLoop && desc(e) != "const:-1" {
+				okIdx = false
+			}
+		}
+		if lc, isCall := cmp.Y.(*ssa.Call); !isCall || calleeName(lc) != "builtin:len" || lc.Call.Args[0] != ssa.Value(sl) {
+			okIdx = false
+		}
+		if !okIdx {
+			continue
+		}
+		// the table: element k, field j -> the value stored (once, before the loop)
+		vals := map[[2]int]ssa.Value{}
+		okT := T.Block().Dominates(L.Header) && !inLoop[T.Block().Index]
+		storeOK := func(st *ssa.Store) bool {
+			return st.Block().Dominates(L.Header) && !inLoop[st.Block().Index]
+		}
+		var elemLoads []*ssa.UnOp
+		for _, r := range *T.Referrers() {
+			switch x := r.(type) {
+			case *ssa.DebugRef:
+			case *ssa.Slice:
+				if x != sl {
+					okT = false
+				}
+			case *ssa.IndexAddr:
+				kc, isK := x.Index.(*ssa.Const)
+				if !isK {
+					okT = false
+					continue
+				}
+				var k int
+				fmt.Sscan(constString(kc), &k)
+				for _, rr := range *x.Referrers() {
+					fa, isFA := rr.(*ssa.FieldAddr)
+					if !isFA {
+						if _, isDbg := rr.(*ssa.DebugRef); !isDbg {
+							okT = false
+						}
+						continue
+					}
+					for _, r3 := range *fa.Referrers() {
+						st, isSt := r3.(*ssa.Store)
+						if _, dup := vals[[2]int{k, fa.Field}]; !isSt || st.Addr != ssa.Value(fa) || dup || !storeOK(st) {
+							if _, isDbg := r3.(*ssa.DebugRef); !isDbg {
+								okT = false
+							}
+							continue
+						}
+						vals[[2]int{k, fa.Field}] = st.Val
+					}
+				}
+			default:
+				okT = false
+			}
+		}
+		for _, r := range *sl.Referrers() {
+			switch x := r.(type) {
+			case *ssa.DebugRef:
+			case *ssa.Call:
+				if calleeName(x) != "builtin:len" {
+					okT = false
+				}
+			case *ssa.IndexAddr:
+				if x.Index != ssa.Value(inc) || !inLoop[x.Block().Index] {
+					okT = false
+				}
+				for _, rr := range *x.Referrers() {
+					if ld, isLoad := rr.(*ssa.UnOp); isLoad && ld.Op == token.MUL {
+						elemLoads = append(elemLoads, ld)
+					} else if _, isDbg := rr.(*ssa.DebugRef); !isDbg {
+						okT = false
+					}
+				}
+			default:
+				okT = false
+			}
+		}
+		if !okT || len(elemLoads) != 1 {
+			continue
+		}
+		// every success-capable exit lies behind the header-to-exit edge
+		exitEdge := map[edgeKey]bool{}
+		for j, sx := range L.Header.Succs {
+			if sx == L.Exit {
+				exitEdge[edgeKey{L.Header.Index, j}] = true
+			}
+		}
+		if len(exitEdge) != 1 || fi.successWitness(m, entryState(), exitEdge) != nil {
+			continue
+		}
+		E := desc(elemLoads[0])
+		// one iteration: no way from the body back to the header once the edges that carry one of the facts are removed
+		blocked := func(sel map[string]bool) (bool, int) {
+			cut := map[edgeKey]bool{}
+			for bi := range inLoop {
+				b := fn.Blocks[bi]
+				bif, isIf := blockTerm(b).(*ssa.If)
+				if !isIf || len(b.Succs) != 2 || b == L.Header {
+					continue
+				}
+				for j := 0; j < 2; j++ {
+					l := condLabel(bif.Cond, j == 0)
+					hit := sel[l]
+					if tw, has := labelTwin(l); has && sel[tw] {
+						hit = true
+					}
+					if comp := fi.composeCond(bif.Cond, j == 0); comp != nil && comp.Complete {
+						for cl := range comp.Checked {
+							if sel[cl] {
+								hit = true
+							}
+						}
+					}
+					if hit {
+						cut[edgeKey{b.Index, j}] = true
+					}
+				}
+			}
+			return !fi.reachHit([]state{{L.Body.Index, 0, -1}}, cut, map[int]bool{L.Header.Index: true}), len(cut)
+		}
+		for j := 0; j < est.NumFields(); j++ {
+			f := E + "." + est.Field(j).Name()
+			if _, isPtr := est.Field(j).Type().Underlying().(*types.Pointer); !isPtr {
+				continue
+			}
+			isNil := "EQ(" + f + ",nil)"
+			okFresh, n1 := blocked(map[string]bool{isNil: true,
+				"F(call:(time.Time).After(call:time.Now()," + f + ".NextUpdate))":  true,
+				"F(call:(time.Time).Before(" + f + ".NextUpdate,call:time.Now()))": true})
+			okZero, _ := blocked(map[string]bool{isNil: true, "F(call:(time.Time).IsZero(" + f + ".NextUpdate))": true})
+			for k := 0; k < int(arr.Len()); k++ {
+				v, stored := vals[[2]int{k, j}]
+				if !stored || isNilConst(v) {
+					continue
+				}
+				if ld, isLoad := v.(*ssa.UnOp); isLoad && ld.Op == token.MUL && !sees(ld) {
+					continue
+				}
+				d := desc(v)
+				if okFresh {
+					tf.nilOrFresh[d] = true
+					tf.gates += n1
+				}
+				if okZero {
+					tf.nilOrNotZero[d] = true
+				}
+			}
+		}
+	}
+	return tf
+}
+
+// ---- C14 / C15: the key in a path is the key of *the* URL ---------------------------------------------------------
+
+// c15KeyOfURL: the path value contains the key of exactly the URL parameter `url` of fn — decided on the values, not on
+// the printed form (the key function is a transparent helper for desc(), and its printed body need not mention its
+// parameter: `hash := sha256.Sum256([]byte(url))` prints as the variable). The path is filepath.Join(…, Key(recv, u))
+// with u the parameter itself (no conversion, no normalisation: "the identical URL string"), or the result of a
+// helper of the package that is handed the parameter and returns such a path on every exit.
+func c15KeyOfURL(a *crlAnchors, fn *ssa.Function, v ssa.Value, url ssa.Value, depth int) bool {
+	call, ok := loadOrigin(v).(*ssa.Call)
+	if !ok || depth > 3 || a.Key == nil {
+		return false
+	}
+	if calleeName(call) == "path/filepath.Join" && len(call.Call.Args) == 1 {
+		sl, ok := call.Call.Args[0].(*ssa.Slice)
+		if !ok {
+			return false
+		}
+		al, ok := sl.X.(*ssa.Alloc)
+		if !ok {
+			return false
+		}
+		els := orderedLitElems(al)
+		if len(els) != 2 {
+			return false
+		}
+		kc, ok := els[1].(*ssa.Call)
+		if !ok || staticCallee(kc) != a.Key || len(kc.Call.Args) == 0 {
+			return false
+		}
+		return kc.Call.Args[len(kc.Call.Args)-1] == url
+	}
+	g := staticCallee(call)
+	if g == nil || g.Blocks == nil || fnPkg(g) != fnPkg(fn) || len(call.Call.Args) != len(g.Params) {
+		return false
+	}
+	gi := -1
+	for i, arg := range call.Call.Args {
+		if arg == url {
+			if gi >= 0 {
+				return false
+			}
+			gi = i
+		}
+	}
+	if gi < 0 {
+		return false
+	}
+	n := 0
+	for _, b := range g.Blocks {
+		r, isRet := blockTerm(b).(*ssa.Return)
+		if !isRet {
+			continue
+		}
+		n++
+		if len(r.Results) != 1 || !c15KeyOfURL(a, g, r.Results[0], g.Params[gi], depth+1) {
+			return false
+		}
+	}
+	return n > 0
 }
